@@ -39,6 +39,7 @@ static xmpp_ctx_t *g_ctx;
 static xmpp_conn_t *g_conn;
 static char g_events[4096];
 static int g_type = 'c';
+static int g_send_on_connect;
 static char g_althost[128]; /* host to connect to instead of the JID's domain ("" = none) */
 static int g_released;
 static int g_disconnects_this_attempt, g_connects_this_attempt, g_attempt_open;
@@ -352,6 +353,13 @@ static void conn_handler(xmpp_conn_t *conn, xmpp_conn_event_t ev, int error, xmp
     if (ev == XMPP_CONN_CONNECT) {
         add_event("CONNECT");
         g_connects_this_attempt++;
+        if (g_send_on_connect) {
+            /* what applications do first: announce themselves from the connection handler */
+            xmpp_stanza_t *pres = xmpp_presence_new(xmpp_conn_get_context(conn));
+            xmpp_stanza_set_id(pres, "oc");
+            xmpp_send(conn, pres);
+            xmpp_stanza_release(pres);
+        }
     } else if (ev == XMPP_CONN_RAW_CONNECT) {
         add_event("RAW");
         g_connects_this_attempt++;
@@ -523,6 +531,7 @@ int eng_conn(FILE *in, FILE *out)
             char *s;
             drop_conn();
             g_althost[0] = 0;
+            g_send_on_connect = 0;
             if (hparse(tok[1], &j) < 0 || hparse(tok[2], &p) < 0) {
                 fprintf(out, "= bad-op\n");
                 continue;
@@ -615,6 +624,8 @@ int eng_conn(FILE *in, FILE *out)
                 free(s);
             }
             hbuf_free(&b);
+        } else if (n == 2 && !strcmp(tok[0], "onconnect")) {
+            g_send_on_connect = atoi(tok[1]) != 0;
         } else if (n == 2 && !strcmp(tok[0], "althost")) {
             /* the application names the host to connect to (altdomain); the XMPP domain stays the
              * JID's */
